@@ -60,8 +60,8 @@ def gen(tier, rng, n_quick=1800):
         for m in modes:
             for fl in FLAVOURS:
                 idxs = list(range(0, 2 * nl + 3))
-                if tier == "quick":
-                    idxs = rng.sample(idxs, min(len(idxs), 3))
+                if tier == "quick" and nl > 2:
+                    idxs = rng.sample(idxs, min(len(idxs), 3))      # roots of one or two locks: every fault position
                 for fi in idxs + ["p_lock", "p_try"]:
                     b, root = mk() if False else (b0, root0)
                     pre = []
@@ -114,7 +114,10 @@ def gen(tier, rng, n_quick=1800):
                                         meta={"desc": b.desc[root], "mode": m, "flavour": fl, "fault": str(fi),
                                               "pre": bool(pre)}))
     if tier == "quick" and len(scens) > n_quick:
-        scens = rng.sample(scens, n_quick)
+        # single locks and their wrappers are few: all of them stay, the rest is sampled
+        keep = [s for s in scens if s.meta["desc"] in ("M", "R", "P(M)", "P(R)")]
+        rest = [s for s in scens if s.meta["desc"] not in ("M", "R", "P(M)", "P(R)")]
+        scens = keep + rng.sample(rest, max(0, min(len(rest), n_quick - len(keep))))
         for i, s in enumerate(scens):
             s.sid = f"c12_{i}"
     return scens
